@@ -20,23 +20,33 @@ REPO = os.environ.get('VERIF_REPO', '/repo')
 
 
 def _exe():
-    """Build the witness crate against the current working tree of REPO (path dependencies)."""
+    """Build the witness crate against the current working tree of REPO.
+
+    The build uses a STAGING COPY of the tree that is synchronised by content (rsync --checksum without preserving
+    times): a file whose content changed gets a fresh mtime, so cargo's mtime-based fingerprints can never leave a
+    stale object behind when a tree is restored with old timestamps (rsync -a, cp -p, a snapshot restore)."""
     import hashlib
     import shutil
     tag = hashlib.sha256(REPO.encode()).hexdigest()[:8]
     src = os.path.join(ROOT, 'witness')
-    crate = src
-    if REPO != '/repo':
-        # same sources, path dependencies pointed at the alternative tree
-        crate = os.path.join(CACHE, 'witness-src-' + tag)
-        os.makedirs(os.path.join(crate, 'src'), exist_ok=True)
-        for f in os.listdir(os.path.join(src, 'src')):
-            shutil.copyfile(os.path.join(src, 'src', f), os.path.join(crate, 'src', f))
-        toml = open(os.path.join(src, 'Cargo.toml')).read().replace('/repo/', REPO.rstrip('/') + '/')
-        open(os.path.join(crate, 'Cargo.toml'), 'w').write(toml)
-        if os.path.exists(os.path.join(src, 'Cargo.lock')):
-            shutil.copyfile(os.path.join(src, 'Cargo.lock'), os.path.join(crate, 'Cargo.lock'))
-    target = os.path.join(CACHE, 'witness-target' + ('' if REPO == '/repo' else '-' + tag))
+    stage = os.path.join(CACHE, 'witness-stage-' + tag)
+    crate = os.path.join(stage, 'witness')
+    srepo = os.path.join(stage, 'repo')
+    os.makedirs(os.path.join(crate, 'src'), exist_ok=True)
+    os.makedirs(srepo, exist_ok=True)
+    r = subprocess.run(['rsync', '-rlc', '--delete', '--exclude', '/target', '--exclude', '.git', REPO.rstrip('/') + '/', srepo + '/'], capture_output=True, text=True)
+    if r.returncode != 0:
+        raise RuntimeError('staging copy failed: ' + r.stderr[-500:])
+    r = subprocess.run(['rsync', '-rlc', '--delete', os.path.join(src, 'src') + '/', os.path.join(crate, 'src') + '/'], capture_output=True, text=True)
+    if r.returncode != 0:
+        raise RuntimeError('staging copy failed: ' + r.stderr[-500:])
+    toml = open(os.path.join(src, 'Cargo.toml')).read().replace('/repo/', srepo + '/')
+    tp = os.path.join(crate, 'Cargo.toml')
+    if not os.path.exists(tp) or open(tp).read() != toml:
+        open(tp, 'w').write(toml)
+    if os.path.exists(os.path.join(src, 'Cargo.lock')) and not os.path.exists(os.path.join(crate, 'Cargo.lock')):
+        shutil.copyfile(os.path.join(src, 'Cargo.lock'), os.path.join(crate, 'Cargo.lock'))
+    target = os.path.join(stage, 'target')
     env = dict(os.environ, CARGO_NET_OFFLINE='true', CARGO_TARGET_DIR=target)
     p = subprocess.run(['cargo', 'build', '--release', '--offline'], cwd=crate, env=env, capture_output=True, text=True)
     if p.returncode != 0:
